@@ -2,6 +2,8 @@
 //! `generate(seed, index, thorough) -> Scenario` and `execute(&Scenario) -> RunReport`.
 
 pub mod common;
+pub mod c02;
+pub mod c04;
 pub mod c09;
 pub mod c10;
 
@@ -29,10 +31,12 @@ macro_rules! dispatch {
 }
 pub(crate) use dispatch;
 
-pub const CLAIMED: [&str; 2] = ["C09", "C10"];
+pub const CLAIMED: [&str; 4] = ["C02", "C04", "C09", "C10"];
 
 pub fn generate(prop: &str, seed: u64, index: u64, thorough: bool) -> Option<Scenario> {
     Some(match prop {
+        "C02" => c02::generate(seed, index, thorough),
+        "C04" => c04::generate(seed, index, thorough),
         "C09" => c09::generate(seed, index, thorough),
         "C10" => c10::generate(seed, index, thorough),
         _ => return None,
@@ -41,6 +45,8 @@ pub fn generate(prop: &str, seed: u64, index: u64, thorough: bool) -> Option<Sce
 
 pub fn execute(sc: &Scenario) -> Option<RunReport> {
     Some(match sc.property.as_str() {
+        "C02" => c02::execute(sc),
+        "C04" => c04::execute(sc),
         "C09" => c09::execute(sc),
         "C10" => c10::execute(sc),
         _ => return None,
@@ -50,6 +56,10 @@ pub fn execute(sc: &Scenario) -> Option<RunReport> {
 /// default number of runs per (property, tier)
 pub fn default_runs(prop: &str, thorough: bool) -> u64 {
     match (prop, thorough) {
+        ("C02", false) => 20_000,
+        ("C02", true) => 2_000_000,
+        ("C04", false) => 12_000,
+        ("C04", true) => 1_000_000,
         ("C09", false) => 600,
         ("C09", true) => 40_000,
         ("C10", false) => 6_000,
@@ -69,6 +79,8 @@ pub fn rule(prop: &str) -> &'static str {
     match prop {
         "C10" => "Each seeded run generates one scenario (model, data, weights, operation script of 3-24 caller-driven ops with revisits, extreme parameters, failed updates, clones, conversions, an occasional whole fit) and executes it under 3 heap fill patterns; evaluations counts scenario executions. A run is non-trivial only if at least one bitwise comparison against a freshly built problem happened AND its pre-history contained a different parameter vector or a failed update. distinct = distinct signatures (model kind, flavour, and per comparison: op position, the two preceding op kinds, cache presence before, failed-update-in-history flag) among non-trivial runs.",
         "C09" => "Each seeded run generates one scenario (build -> 0-4 caller-driven ops -> fit or fit_with_statistics -> recovery update and Jacobian). 75% of runs enumerate: the scenario is executed fault-free to learn its sequence of model calls, then EVERY call position is re-executed with a transient failure, a persistent failure (and 'fail after mutating' for set_params; wrong-length closure output for builder-made models; a burst at every 7th position); 25% of runs execute a seeded 2-3 fault plan (bursts, heals, persistent). evaluations counts scenario executions (each with a tap-twin execution when a fit is present). An execution is non-trivial only if a fault actually fired; distinct = distinct signatures (model kind, flavour, kind of the failing call, phase build/pre/fit/post, persistence, action, outcome of the fit).",
+        "C02" => "Each seeded run generates one scenario (model, observations with 1-4 columns, mostly non-trivial weights incl. zeros/negatives/wide ranges, operation script of 2-20 caller-driven updates/queries/weighted-data reads/conversions, usually a fit; 40% of hand-written-model runs have 1-2 transient model failures between good updates) and executes it once; after every operation the residual identity r = vec(W.Y - (W.Phi_ref(alpha)).C) is evaluated element-wise within a forward-error bound at the alpha the problem reports, weighted data are compared with w*y, best_fit with Phi_ref(alpha_hat)*C_hat, params with the last vector the model acknowledged. A run is non-trivial only if at least one residual identity was evaluated with weights that are not all ones AND a residual norm above 1e-6*||W.Y||; distinct = distinct signatures (model kind, width, flavour, API, S, M, sequence of update/weighted-data/fit outcomes).",
+        "C04" => "Each seeded run generates one scenario (model, data exact or noisy, start exact/near/mid/far, optimizer knob swarm: patience 1-100, zero/huge/epsilon tolerances, tiny step bound, no diagonal scaling; 15% with a failing model) and executes one fit (or fit_with_statistics) twice: through LevMarSolver::fit and through the same optimizer on a tap around a twin problem. Every run with a completed fit is non-trivial; distinct = distinct signatures (model kind, flavour, API, termination reason, accepted steps 0..6+, ended on a restored rejected step, width, Ok/Err).",
         _ => "",
     }
 }
